@@ -34,8 +34,11 @@ Enqs(q) == SelectSeq(q, LAMBDA o : o.k = "ienq")
 
 GV(g) == [t \in { g[i][1] : i \in DOMAIN g } |-> (LET j == CHOOSE i \in DOMAIN g : g[i][1] = t IN g[j][2])]
 
-Res(s, p, x, cls) == [st |-> s, pc |-> p, xi |-> x, cls |-> cls]
+Res(s, p, x, cls) == [st |-> s, pc |-> p, xi |-> x, cls |-> cls, info |-> <<>>]
 Bad(s, cls) == Res(s, "bad", 0, cls)
+BadI(s, cls, info) == [st |-> s, pc |-> "bad", xi |-> 0, cls |-> cls, info |-> info]
+\* compact form of expected observations for REJECT lines
+Brief(q) == [i \in DOMAIN q |-> <<q[i].k, q[i].s, q[i].t, q[i].v>>]
 
 \* compare the model's observations with the recorded ones
 ObsClass(rec, s1) ==
@@ -45,11 +48,11 @@ ObsClass(rec, s1) ==
   ELSE ""
 
 AfterSelect(rec, s1, en, nextpc, x) ==
-  IF rec.ts # en THEN Bad(s1, "enabled")
+  IF rec.ts # en THEN BadI(s1, "enabled", en)
   ELSE IF en = <<>> THEN (IF rec.micro \/ rec.obs # <<>> THEN Bad(s1, "noop") ELSE Res(s1, nextpc, x, ""))
   ELSE IF ~rec.micro THEN Bad(s1, "order")
   ELSE LET s2 == Microstep(D, s1, en) c == ObsClass(rec, s2) IN
-       IF c # "" THEN Bad(s2, c) ELSE Res(s2, nextpc, x, "")
+       IF c # "" THEN BadI(s2, c, Brief(s2.obs)) ELSE Res(s2, nextpc, x, "")
 
 Judge(s, p, x, rec) ==
   IF rec.k = "malformed" THEN Bad(s, "shape")
@@ -58,7 +61,7 @@ Judge(s, p, x, rec) ==
   CASE rec.k = "init" ->
          IF p # "start" THEN Bad(s, "shape")
          ELSE LET s1 == EnterStates(D, Clear(s), <<InitialT(D, Root)>>) c == ObsClass(rec, s1) IN
-              IF c # "" THEN Bad(s1, c) ELSE Res(s1, "macro", x, "")
+              IF c # "" THEN BadI(s1, c, Brief(s1.obs)) ELSE Res(s1, "macro", x, "")
     [] rec.k = "eventless" ->
          IF p # "macro" THEN Bad(s, "shape")
          ELSE LET el == SelectG(D, s.cfg, s.hist, s.data, GV(rec.gv), <<>>) IN
@@ -98,13 +101,13 @@ Consume ==
   /\ LET r == Judge(st, pc, xi, T.steps[l]) IN
      IF r.cls = ""
      THEN /\ st' = r.st /\ pc' = r.pc /\ xi' = r.xi /\ l' = l + 1 /\ UNCHANGED <<tr, verdict>>
-     ELSE /\ PrintT(<<"REJECT", tr, l, r.cls>>)
+     ELSE /\ PrintT(<<"REJECT", tr, l, r.cls, r.info>>)
           /\ verdict' = r.cls /\ UNCHANGED <<tr, l, st, pc, xi>>
 
 Finish ==
   /\ verdict = "" /\ l = Len(T.steps) + 1
   /\ IF pc = "done" THEN verdict' = "ok" /\ PrintT(<<"ACCEPT", tr>>)
-     ELSE verdict' = "trunc" /\ PrintT(<<"REJECT", tr, l, "trunc">>)
+     ELSE verdict' = "trunc" /\ PrintT(<<"REJECT", tr, l, "trunc", <<>> >>)
   /\ UNCHANGED <<tr, l, st, pc, xi>>
 
 Stutter == verdict # "" /\ UNCHANGED vars
